@@ -100,6 +100,9 @@ AddK(g, H, W, k) == [r \in 0..H-1 |-> [c \in 0..W-1 |-> IF IsNaN(g[r][c]) THEN N
 \* ------------------------------------------------------------------ exact rationals <<p,q>>, q > 0 (q = 0: NaN)
 RIsNaN(a) == a[2] = 0
 REq(a, b) == IF RIsNaN(a) \/ RIsNaN(b) THEN RIsNaN(a) /\ RIsNaN(b) ELSE a[1] * b[2] = b[1] * a[2]
+RECURSIVE GCD(_, _)
+GCD(a, b) == IF b = 0 THEN a ELSE GCD(b, a % b)
+RNorm(a) == LET k == GCD(Abs(a[1]), Abs(a[2])) IN IF k = 0 THEN a ELSE <<a[1] \div k, a[2] \div k>>   \* lowest terms
 RLe(a, b) == a[1] * b[2] <= b[1] * a[2]            \* both finite
 RLt(a, b) == a[1] * b[2] < b[1] * a[2]
 
